@@ -276,6 +276,11 @@ TEXTS = ["", " ", "null", "NULL", "0", "-0", "1", "2", "-1", "+3", "007", "1e3",
          "0x10", "true", "false", "TRUE", "yes", "no", "on", "off", "  5  ", "5.0", ".5", "5.", "abc", "é", "1e400",
          "9" * 400, "9" * 5000, "1.7976931348623157e308", "5e-324", "None", "True", "--", "1,5", "1 2"]
 NONTEXT = [None, True, False, 3, 2.5]
+# values that are neither texts nor numbers (a programmatic caller can pass anything to set_option / set_argument);
+# a case names them by key so that it stays a JSON document
+SPECIAL = {"@empty-tuple": (), "@tuple2": (1, 2), "@tuple3": ("1", "2", "3"), "@tuple1": ("7",), "@list": [1, 2],
+           "@empty-list": [], "@dict": {"a": 1}, "@bytes": b"5", "@object": object(), "@percent": "%s %d %",
+           "@braces": "{} {0} {x}"}
 TYPE_OF = {"s": str, "b": bool, "i": int, "f": float}
 
 
@@ -291,6 +296,8 @@ def make_typed(kind, typ, nullable):
 
 def check_convert(ctx, case):
     kind, typ, nullable, value = case["kind"], case["type"], case["nullable"], case["value"]
+    if isinstance(value, str) and value in SPECIAL:
+        value = SPECIAL[value]
     ctx.case("convert", case, True)
     el = make_typed(kind, typ, nullable)
     try:
@@ -386,9 +393,9 @@ def run(ctx):
     for kind in ("option", "argument"):
         for typ in "sbif":
             for nullable in (False, True):
-                for v in TEXTS + NONTEXT:
+                for v in TEXTS + NONTEXT + sorted(SPECIAL):
                     check_convert(ctx, {"kind": kind, "type": typ, "nullable": nullable, "value": v})
-    ctx.exhaustive("convert", True, "%d boundary inputs x 4 types x nullable x option/argument" % len(TEXTS + NONTEXT))
+    ctx.exhaustive("convert", True, "%d boundary inputs (texts, numbers, tuples, lists, dict, bytes, object) x 4 types x nullable x option/argument" % len(TEXTS + NONTEXT + sorted(SPECIAL)))
     n = 1500 if quick else 50000
     ints = st.one_of(st.integers(-2 ** 70, 2 ** 70), st.integers(-100, 100)).map(lambda i: {"type": "i", "value": i})
     floats = st.floats(allow_nan=True, allow_infinity=True).map(lambda f: {"type": "f", "value": repr(f)})
